@@ -258,7 +258,7 @@ func runC02(c *core.Ctx) {
 	n := c.Pick(600, 4000)
 	c.RunHistories(n, Registry["C02"].Mons, func(w *core.World) {
 		wts := map[string]int{
-			"edit-new": 14, "edit-mod": 10, "edit-rm": 4, "edit-rmdir": 2, "edit-same": 1,
+			"edit-new": 14, "edit-mod": 8, "edit-mod-samesize": 3, "edit-rm": 4, "edit-rmdir": 2, "edit-same": 1,
 			"add": 16, "add-all": 2, "rm": 4, "commit": 14, "commit-all": 4,
 			"restore": 2, "restore-staged": 4, "reset": 4,
 			"branch-create": 3, "switch": 3, "switch-c": 2, "branch-rename": 1, "config": 1,
@@ -266,6 +266,7 @@ func runC02(c *core.Ctx) {
 		k := NewWalker(w, gen.NameOpts{Space: true, NonASCII: w.Hist%2 == 0, Meta: w.Hist%5 == 0, MaxDepth: 4, N: 5 + w.Hist%6}, wts)
 		k.Hostile = 4
 		k.MaxContent = 70000
+		k.MsgClass = w.Hist%2 == 0 // every message class of the quantifiers (multi-line, tabs, %, non-ASCII ...)
 		k.Init()
 		if w.Hist%4 == 0 {
 			w.Goit("config", "--global", "user.name", "Global Name")
